@@ -163,3 +163,14 @@ claim('C05',
       'and > 3 fused rings outside; relational oracle plus my matching model.',
       'symbolic execution of the real writer / reader / kekule / thiele with z3-decided write orders (minisym)',
       'DESIGN.md §4 C05')
+claim('C14',
+      'Every documented functional-group spelling harvested (by ast, on every run) from the repository\'s own test_groups.py is '
+      'standardised, under every random-order spelling of the input (random() symbolic), to its documented canonical '
+      'spelling, with heavy atoms conserved, net charge conserved on valence-valid input, and idempotence; explicify / '
+      'implicify are exact and mutually inverse; canonicalize / standardize / neutralize / fix_resonance / tautomer '
+      'enumeration on seeds conserve composition, stay valence-valid, are idempotent and independent of the input order '
+      '(tautomer fixing disabled for that clause).',
+      'Bounded: harvested pairs with <= 6 heavy-atom symbols in quick (all in thorough), 13 / 29 seeds; rule interactions '
+      'beyond these inputs outside; two recorded findings (azoxy-type canonical forms are not fixed points of standardize).',
+      'symbolic execution of the real writer / reader / normalisers with z3-decided input orders (minisym)',
+      'DESIGN.md §4 C14')
